@@ -776,20 +776,19 @@ class Sim:
         return "emodulus/" + ("invalid-config" if sc.startswith("invalid") else sc)
 
     def op_read(self, f, child):
+        """read on the long-lived dataset (and, for `child`, afterwards through the
+        refreshed hierarchy child) and on fresh counterparts"""
         rec = self.rec
         grp = GROUP[f]
         hist, removed = self.hist(f)
         tag = self.sigtag(f)
         if child:
             self.child.rejuvenate()
-            long_ds = self.child
             rec.cls("child-read")
-        else:
-            long_ds = self.ds
-        fr = self.fresh(child)
+        fr = self.fresh(False)
         try:
-            has_l = f in long_ds
-            out_l = observe(long_ds, f)
+            has_l = f in self.ds
+            out_l = observe(self.ds, f)
             has_f = f in fr
             out_f = observe(fr, f)
         finally:
@@ -810,51 +809,22 @@ class Sim:
                 rec.cls("emodulus-finite-values")
         # (1) long-lived == fresh
         agree = same(out_l, out_f)
-        level = "ds"
-        if child and not agree:
-            # is the parent already wrong, or only the child view?
-            fr2 = self.fresh(False)
-            try:
-                if same(observe(self.ds, f), observe(fr2, f)):
-                    level = "child-only"
-            finally:
-                self.release(fr2)
-        rec.check(agree, f"value/{level}/{tag}/{hist}",
-                  lambda: f"{f}: long-lived {'child' if child else 'dataset'} gives "
-                          f"{show(out_l)}, a fresh dataset with the same state gives "
-                          f"{show(out_f)}; cfg={self.cfg} temps={sorted(self.temps)} "
-                          f"plugin={self.variant}")
+        rec.check(agree, f"value/ds/{tag}/{hist}",
+                  lambda: f"{f}: long-lived dataset gives {show(out_l)}, a fresh dataset "
+                          f"with the same state gives {show(out_f)}; cfg={self.cfg} "
+                          f"temps={sorted(self.temps)} plugin={self.variant}")
         stale = self.stale_class(f, av)
-        self.check_contains(f, has_l, has_f, stale, child)
+        self.check_contains(f, has_l, has_f, stale, False)
         # (2) membership <=> reading succeeds (valid configurations)
-        for side, has_x, out_x, st_cls in (("long", has_l, out_l, stale),
-                                           ("fresh", has_f, out_f, "fresh")):
-            if out_x[0] == "exc" and out_x[1] not in OKAY_EXC:
-                rec.fail(f"unexpected-exception/{side}/{tag}/{out_x[1]}",
-                         f"reading {f} raises {out_x[1]}; cfg={self.cfg}")
-                continue
-            if out_x[0] == "ok":
-                ok = has_x
-            elif out_x[1] == "KeyError":
-                ok = not has_x
-            else:
-                # deliberate rejection of contradictory settings
-                ok = not valid
-                if ok:
-                    rec.skip("deliberate-error-in-invalid-configuration")
-            sig = (f"available-vs-read/{side}/{st_cls}"
-                   if st_cls == "cached-then-requirement-removed"
-                   else f"available-vs-read/{side}/{tag}/{st_cls}")
-            rec.check(ok, sig,
-                      lambda: f"{side}: '{f}' in ds is {has_x} but reading "
-                              f"{show(out_x)}; valid-config={valid} cfg={self.cfg} "
-                              f"plugin={self.variant}")
+        self.check_avail_vs_read(f, "long", has_l, out_l, stale, tag, valid)
+        self.check_avail_vs_read(f, "fresh", has_f, out_f, "fresh", tag, valid)
         # (3) documentation model of availability (fresh dataset)
         rec.check(has_f == av, f"avail-model/{tag}",
                   lambda: f"'{f}' in fresh dataset is {has_f}, documentation model says "
                           f"{av}; cfg={self.cfg} data={sorted(self.data)} "
                           f"temps={sorted(self.temps)} plugin={self.variant}")
         # (4) direct evaluation of the documented recipe
+        exp = None
         if av and valid and out_f[0] == "ok":
             exp = self.direct(f)
             if exp is None:
@@ -862,16 +832,9 @@ class Sim:
             else:
                 rec.cls("direct:" + grp)
                 exp = np.asarray(exp)
-                if child:
-                    # a child enumerates its own events
-                    exp = (np.arange(1, int(self.mask.sum()) + 1) if f == "index"
-                           else exp[self.mask])
-                got = out_f[1]
-                ok = exp.shape == got.shape and np.array_equal(
-                    exp.astype(float), got.astype(float), equal_nan=True)
-                rec.check(ok, f"direct/{tag}",
-                          lambda: f"{f}: fresh dataset gives {show(out_f)}, documented "
-                                  f"recipe gives {show(('ok', exp))}; cfg={self.cfg}")
+                self.check_direct(f, exp, out_f, f"direct/{tag}")
+        if child:
+            self.read_child(f, hist, tag, agree, stale, valid, exp)
         if out_l[0] == "ok" and agree:
             self.mark_read(f)
         if f == "emodulus" and has_l and out_l != ("exc", "KeyError"):
@@ -880,6 +843,63 @@ class Sim:
             for g in ("area_um", "deform"):
                 if g not in self.data and self.avail(g):
                     self.mark_read(g)
+
+    def read_child(self, f, hist, tag, parent_agrees, stale, valid, exp):
+        rec = self.rec
+        fc = self.fresh(True)
+        try:
+            has_l = f in self.child
+            out_l = observe(self.child, f)
+            has_f = f in fc
+            out_f = observe(fc, f)
+        finally:
+            self.release(fc)
+        if parent_agrees:
+            rec.check(same(out_l, out_f), f"value/child/{tag}/{hist}",
+                      lambda: f"{f}: refreshed long-lived child gives {show(out_l)}, the "
+                              f"child of a fresh dataset gives {show(out_f)}; "
+                              f"cfg={self.cfg} temps={sorted(self.temps)} "
+                              f"plugin={self.variant} filter={self.mask.astype(int)}")
+        else:
+            rec.skip("child-comparison-skipped:parent-already-differs")
+        self.check_contains(f, has_l, has_f, stale, True)
+        self.check_avail_vs_read(f, "long-child", has_l, out_l, stale, tag, valid)
+        if exp is not None and out_f[0] == "ok":
+            # a child enumerates its own events
+            expc = (np.arange(1, int(self.mask.sum()) + 1) if f == "index"
+                    else exp[self.mask])
+            self.check_direct(f, expc, out_f, f"direct-child/{tag}")
+
+    def check_direct(self, f, exp, out_f, sig):
+        got = out_f[1]
+        ok = exp.shape == got.shape and np.array_equal(
+            exp.astype(float), got.astype(float), equal_nan=True)
+        self.rec.check(ok, sig,
+                       lambda: f"{f}: fresh dataset gives {show(out_f)}, documented "
+                               f"recipe gives {show(('ok', exp))}; cfg={self.cfg} "
+                               f"plugin={self.variant}")
+
+    def check_avail_vs_read(self, f, side, has_x, out_x, st_cls, tag, valid):
+        rec = self.rec
+        if out_x[0] == "exc" and out_x[1] not in OKAY_EXC:
+            rec.fail(f"unexpected-exception/{side}/{tag}/{out_x[1]}",
+                     f"reading {f} raises {out_x[1]}; cfg={self.cfg}")
+            return
+        if out_x[0] == "ok":
+            ok = has_x
+        elif out_x[1] == "KeyError":
+            ok = not has_x
+        else:
+            # deliberate rejection of contradictory settings
+            ok = not valid
+            if ok:
+                rec.skip("deliberate-error-in-invalid-configuration")
+        sig = (f"available-vs-read/{side}/{st_cls}"
+               if st_cls == "cached-then-requirement-removed"
+               else f"available-vs-read/{side}/{tag}/{st_cls}")
+        rec.check(ok, sig,
+                  lambda: f"{side}: '{f}' in ds is {has_x} but reading {show(out_x)}; "
+                          f"valid-config={valid} cfg={self.cfg} plugin={self.variant}")
 
     def check_contains(self, f, has_l, has_f, stale, child):
         where = "child" if child else "ds"
